@@ -19,6 +19,7 @@ import EinoV.Model.FlatMap
 import EinoV.Model.C02Workflow
 import EinoV.Oracle.GraphCase
 import EinoV.Spec.DagWF
+import EinoV.Spec.DagStatus
 
 namespace EinoV.Oracle.C02Workflow
 open Lean EinoV EinoV.Engine EinoV.Oracle.GraphCase
@@ -171,6 +172,7 @@ def handle (c : Json) : JE Json := do
     ("altsComplete", Json.bool ex.complete),
     -- hypothesis of the run-level theorems (Props/C02.lean `workflow_at_most_once`)
     ("wf", Json.bool (Engine.DagRun.dagWFb r)),
+    ("wf2", Json.bool (Engine.DagRun.dagWF2b r)),
     ("possible", J.mkArr (ex.tasks.map fun t => Json.mkObj [("k", Json.str t.1), ("in", Json.str t.2)]))])
 
 end EinoV.Oracle.C02Workflow
